@@ -145,7 +145,9 @@ class Ctx:
         self.pc.append(c)
         self.solver.add(c)
 
-    def branch(self, cond):
+    def branch(self, cond, tag=None):
+        """tag: for concretisation decisions the candidate value, recorded in the trace so that a replayed prefix
+        re-asks about the *same* value (the model that proposed it is not available during replay)."""
         cond = z3.simplify(cond)
         if z3.is_true(cond):
             return True
@@ -156,6 +158,8 @@ class Ctx:
         if d < len(self.forced):
             v = self.forced[d]
             self.trace.append(v)
+            if _isinstance(v, tuple):
+                v = v[1]
             self._push_pc(cond if v else z3.Not(cond))
             self.model = None
             return v
@@ -185,14 +189,14 @@ class Ctx:
         if rt == "sat" and rf == "sat":
             v = mv
             self.nforks += 1
-            self.new_work.append(self.trace + [not v])
+            self.new_work.append(self.trace + [(not v) if tag is None else (tag, not v)])
         elif rt == "sat":
             v = True
         elif rf == "sat":
             v = False
         else:
             raise PathAbort()
-        self.trace.append(v)
+        self.trace.append(v if tag is None else (tag, v))
         self._push_pc(cond if v else ncond)
         return v
 
@@ -230,26 +234,30 @@ class Ctx:
         k = "%s:%s" % (fr.filename.split("/urwid/")[-1] if fr else "?", fr.lineno if fr else 0)
         seen = self.conc_sites.setdefault(k, set())
         while True:
-            if self.model is None:
-                r, m = self._check()
-                if r == "unknown":
-                    raise Unsupported("solver answered unknown while concretising")
-                if r != "sat":
-                    raise PathAbort()
-                self.model = m
-            mv = self.model.eval(expr, model_completion=True)
-            if z3.is_int_value(mv):
-                v = mv.as_long()
-            elif z3.is_true(mv):
-                v = True
-            elif z3.is_false(mv):
-                v = False
+            d = self.depth
+            if d < len(self.forced) and _isinstance(self.forced[d], tuple):
+                v = self.forced[d][0]  # replaying: ask about the value this decision was made for
             else:
-                raise Unsupported("cannot concretise %s" % expr.sort())
+                if self.model is None:
+                    r, m = self._check()
+                    if r == "unknown":
+                        raise Unsupported("solver answered unknown while concretising")
+                    if r != "sat":
+                        raise PathAbort()
+                    self.model = m
+                mv = self.model.eval(expr, model_completion=True)
+                if z3.is_int_value(mv):
+                    v = mv.as_long()
+                elif z3.is_true(mv):
+                    v = True
+                elif z3.is_false(mv):
+                    v = False
+                else:
+                    raise Unsupported("cannot concretise %s" % expr.sort())
             seen.add(v)
             if len(seen) > MAX_CONC_VALUES:
                 raise Unsupported("unbounded concretisation at %s" % k)
-            if self.branch(expr == (z3.BoolVal(v) if _isinstance(v, bool) else v)):
+            if self.branch(expr == (z3.BoolVal(v) if _isinstance(v, bool) else v), tag=v):
                 return v
 
     def witness(self):
